@@ -130,7 +130,9 @@ pub mod io {
                 final(self).budget() <= old(self).budget(),
                 r matches Ok(w) ==> w@.len() <= old(self).remaining().len() && w@ == old(self).remaining().subrange(0, w@.len() as int)
                         && (w@.len() == 0 ==> old(self).remaining().len() == 0) && final(self).errored() == old(self).errored(),
-                r matches Err(e) ==> final(self).errored();
+                // an Err is recorded in errored(); an ErrorKind::Interrupted one also uses up some of the interruption budget (a source
+                // interrupts finitely often — the same standing assumption as for Read::read — which is what lets a retry loop terminate)
+                r matches Err(e) ==> final(self).errored() && (e.k == ErrorKind::Interrupted ==> final(self).budget() < old(self).budget());
         fn consume(&mut self, amt: usize)
             requires amt <= old(self).remaining().len(),
             ensures final(self).remaining() == old(self).remaining().subrange(amt as int, old(self).remaining().len() as int),
